@@ -237,6 +237,12 @@ class C03(Prop):
                     if list(combo) == list(range(len(A))):
                         continue
                     cases.append(mk(data, PA, "any", ["rearrange"]))
+            # cut at a record boundary and append a FORGED empty final record (counter j, flag 1, length 0, junk tag)
+            for idx in (5, 6, 4):
+                recs = records(files[idx])
+                for j in range(0, len(recs)):
+                    forged = j.to_bytes(8, "big") + (1).to_bytes(4, "big") + (0).to_bytes(4, "big") + ctx.rbytes(16)
+                    cases.append(mk(b"".join(recs[:j]) + forged, pts[idx], "must_reject", ["forged-empty-final"]))
             # length-field edits
             F, P = files[3], pts[3]
             for v in (0, 1, cs, cs + 1, 2 ** 31, 2 ** 32 - 1):
@@ -613,6 +619,11 @@ def fault_variants(base_trace, rs, ws, fs):
             it = pad(ws, k, "c70000")
             it = it[:k] + [kind] + it[k:]
             out.append((rs, ",".join(it), fs, "write-%s@%d" % (kind, k)))
+    for k in range(nw):
+        # a short write followed by a WouldBlock error (non-blocking sink): must be an error, nothing re-sent
+        it = pad(ws, k, "c70000")
+        it = it[:k] + ["c1", "b"] + it[k:]
+        out.append((rs, ",".join(it), fs, "write-b@%d" % k))
     for k in range(nf):
         for kind in ("i", "o"):
             it = pad(fs, k, "k")
@@ -672,6 +683,13 @@ class C10(Prop):
                     side, kind = tag.split("@")[0].split("-")
                     if res["code"] == 1 or res["code"] >= 900:
                         return ("an I/O failure is reported as an error value, never a panic", res["outcome"])
+                    triggered = any(t[0] in (2, 4, 6) or (t[0] == 3 and t[2] == 0 and t[1] > 0) or (t[0] == 1 and t[2] == 0)
+                                    for t in res["trace"])
+                    if not triggered or kind == "b" and not any(t[0] == 4 for t in res["trace"]):
+                        # the scripted fault was never reached (e.g. the partial write completed the buffer)
+                        if res["code"] != good["code"] or res["out"] != good["out"]:
+                            return ("same result as the fault-free run when no fault occurred", res["outcome"])
+                        return None
                     if side == "read" and kind == "z":
                         # a zero-length read is end-of-input by the Read contract, not a failure: the encryptor
                         # finalises there, the decryptor reports truncation (or, at the probe, success)
@@ -686,7 +704,7 @@ class C10(Prop):
                         # success is allowed only when the failure was a retried interruption and all was written
                         if not (kind == "i" and res["out"] == good["out"]):
                             return ("success only after a retried interruption with everything written", "ok out=" + res["out"][:40].hex())
-                    elif kind == "o":
+                    elif kind in ("o", "b"):
                         want = rd if side == "read" else wr
                         if res["code"] not in want:
                             return ("error identifies the failing side (%s)" % side, res["outcome"])
